@@ -17,15 +17,20 @@ PROPS = {
     ),
 }
 
+# axioms of Coq's standard library that Flocq's binary64 development relies on (named in the trusted base)
+FLOCQ_AXIOMS = ["ClassicalDedekindReals.sig_not_dec", "ClassicalDedekindReals.sig_forall_dec",
+                "FunctionalExtensionality.functional_extensionality_dep", "Classical_Prop.classic"]
+TB_AXIOMS = "standard-library axioms reached through Flocq's binary64 (the evaluator's float operations): " + ", ".join(FLOCQ_AXIOMS)
 TB_EXP = ["Go's unicode letter/digit tables (dumped each run; Section variables)",
           "Flocq 4 binary64 (theorems about float operations depend on the standard library's real-number axioms, classic and functional extensionality, as Print Assumptions reports)",
+          TB_AXIOMS,
           "user functions, methods and writers are oracles (Section variables); the harness instantiates them with a fixed table implemented identically in Go and in ocaml/driver.ml"]
 MOD_EXP = ["exp/parser (ANTLR lexer/parser: accept/reject + accepted tree; error recovery not modelled)", "exp/visitor.go", "exp/reflects.go", "exp/scope.go",
            "strconv.ParseInt/ParseFloat/Unquote, fmt %v for nil/bool/int/string/slices (floats, maps, structs in text: UNMODELLED -> case skipped and counted)"]
 EVAL_RULE = "expressions from the typed generator of harness/gen_expr.go (all operators, literals in every Go form, variables of every integer/float kind, minimal and random parenthesisation, depth <= 6), instrumented expressions with recording/failing/panicking calls at the leaves, and access paths over a data graph of maps/structs/pointers/slices/arrays; non-trivial = the case is not a bare literal/name (it contains an operator, call or access step); distinct = distinct case lines"
 
 PROPS["C09"] = dict(
-    level="proof", rule=EVAL_RULE,
+    level="proof", allowed_axioms=FLOCQ_AXIOMS, rule=EVAL_RULE,
     streams=[dict(name="eval", family="eval", quick=4000, thorough=300000, nontrivial=r"."),
              dict(name="parse", family="parse", quick=4000, thorough=300000, nontrivial=r".")],
     trusted_base=TB_EXP, modelled=MOD_EXP,
@@ -44,7 +49,7 @@ PROPS["C10"] = dict(
     level_note="ANTLR error recovery is not modelled (any syntax error = rejection); lexer model covers GoLexer.g4 token classes incl. NLSEMI mode.",
 )
 PROPS["C11"] = dict(
-    level="proof", rule=EVAL_RULE,
+    level="proof", allowed_axioms=FLOCQ_AXIOMS, rule=EVAL_RULE,
     streams=[dict(name="eval", family="eval", quick=4000, thorough=300000, nontrivial=r"."),
              dict(name="rel", family="rel", quick=3000, thorough=200000, nontrivial=r".")],
     trusted_base=TB_EXP, modelled=MOD_EXP, assumptions=["non-NaN operands for trichotomy; uint64 values above MaxInt64 excluded (they wrap in IsInt)"],
@@ -52,7 +57,7 @@ PROPS["C11"] = dict(
     level_note="Equality of slices/maps/structs/functions (Go's == panics or compares identity) is UNMODELLED and skipped.",
 )
 PROPS["C12"] = dict(
-    level="proof", rule=EVAL_RULE,
+    level="proof", allowed_axioms=FLOCQ_AXIOMS, rule=EVAL_RULE,
     streams=[dict(name="eval", family="eval", quick=5000, thorough=300000, nontrivial=r"LOG .|ERR")],
     trusted_base=TB_EXP, modelled=MOD_EXP, assumptions=[],
     level_text="Theorems on the evaluator model: an error in any evaluated operand is the result of the whole expression (first error wins, cause preserved), nothing is evaluated after it (the call log stops), && || ?: do not evaluate the unselected operand; tied to the code by comparing error class (errors.Is against the injected sentinels / ErrNoSuchValue) and the recorded call log on instrumented expressions.",
@@ -73,5 +78,48 @@ PROPS["C14"] = dict(
     level_text="Theorems: for every string s, lexing quote_dq s / quote_sq s / quote_raw s yields one string token and unquote returns s (raw: s without backquote and CR); tied to the code by evaluating the three literal forms of generated strings directly and inside ${} blocks in attributes with either delimiter.",
     level_note="Byte escapes >= 0x80 (\\xff) produce invalid UTF-8 and are UNMODELLED.",
 )
+
+TB_RENDER = TB_SCAN + TB_EXP + ["Go map iteration order (range over maps is exercised with at most one entry)", "html.EscapeString is modelled as the five-entity map"]
+MOD_RENDER = ["html/template.go (execute / processTagStart / processIfElse / processRange / processRemoveAttr)", "html/tag.go (SortedAttr, IsClose, IsSelfClose)",
+              "html/tag_attr.go (Evaluate, WithAssign)", "html/manager.go (Add, addDefinedTpl, GetTemplate)", "html/node.go", "html/parser.go"] + MOD_EXP
+SOUP_RULE = ("template sets from harness/gen_tmpl.go: 1-3 files in random load order, 0-3 fragments defined before/after use or in other files, elements carrying random subsets of "
+             "{with, if/else-if/elseif/elif/else chains, range (16 header forms), remove modes, text/raw/insert/replace, dynamic and static attributes} in random written order, on ordinary, void, "
+             "self-closing, block and raw-text elements, nesting <= 4; 1-3 data valuations executed on ONE template object, 15% with a writer failing at a random write index; "
+             "non-trivial = the template loaded and at least one directive was processed (every generated set contains directives); distinct = distinct case lines")
+def render_prop(level_text, level_note, extra_streams=(), quick=2500, thorough=150000):
+    return dict(level="proof", allowed_axioms=FLOCQ_AXIOMS, rule=SOUP_RULE,
+                streams=[dict(name="tmpl", family="tmpl", quick=quick, thorough=thorough, nontrivial=r"^(OK|ERR)")] + list(extra_streams),
+                trusted_base=TB_RENDER, modelled=MOD_RENDER, assumptions=["valid UTF-8 templates", "acyclic fragment inclusion (cyclic inclusion: see C08)"],
+                level_text=level_text, level_note=level_note)
+
+PROPS["C01"] = dict(level="proof", allowed_axioms=FLOCQ_AXIOMS,
+    rule="documents without directives from the token grammar of harness/gen_doc.go (nesting, unbalanced/unclosed/stray close tags, void and self-closing elements, raw-text elements with '<' inside, entities, multi-line attribute values, any Unicode plane; 7 prefix / raw-text / void configurations; 10% malformed); non-trivial = loads and contains at least one tag; distinct = distinct case lines",
+    streams=[dict(name="plain", family="plain", quick=3000, thorough=200000, nontrivial=r"^OK .*60,"),
+             dict(name="scan", family="scan", quick=2000, thorough=100000, nontrivial=r"\(Tag ")],
+    trusted_base=TB_RENDER, modelled=MOD_RENDER, assumptions=["valid UTF-8", "no attribute with the attribute prefix, no block element, no <!-- /* */ --> comment"],
+    level_text="Theorems: token values concatenate to the source (scan_concat), the tree builder keeps every token in order (build_flatten), and rendering a tree without directives prints every text/comment/CDATA/close tag byte for byte and every open tag as <name attr[=raw]...> (render_plain, for every loader-built tree: build_shaped); tied to the code by diffing rendered output on generated documents, plus the direct oracles (output = source parts, re-scan gives the same parts, second render is identical).",
+    level_note="That the printed open tag differs from the source tag only by in-tag white space is checked by the direct oracle (re-scan of the output), not by a theorem.")
+PROPS["C02"] = render_prop(
+    "Theorems: unescape(escape s) = s, escape s contains none of < > \" ' and every & starts one of the five entities, :text emits escape(value), a dynamic attribute emits name=\"escape(value)\", :raw emits the value verbatim; tied to the code by diffing rendered output for hostile strings at every insertion point; the structure clause (same tag/attribute-name sequence whatever is inserted) is checked on the implementation by re-scanning outputs for pairs of inserted strings.",
+    "structure_invariant is exploration-level (metamorphic oracle), not a theorem.")
+PROPS["C03"] = render_prop(
+    "Theorems over the renderer model for ANY behaviour of nested renders and ANY initial condition table: a chain renders exactly the first element whose condition is \"true\", nothing of an unselected element is evaluated after the selected one, an else without a preceding chain element is an error; tied to the code by diffing output, error class and the log of recording condition functions on generated chains (1-4 elements, all placements, other directives mixed in, histories on one object).",
+    "The chain theorem is stated for elements whose only directive is the condition; mixed-directive chains are covered by the correspondence stream.")
+PROPS["C04"] = render_prop(
+    "Theorems: the per-item loop re-executes the element once per item in order with index and item bound innermost, joins the outputs with the blank text that follows the element (between items only), renders nothing for an empty collection, stops at the first failing item, rejects non-collections; tied to the code by diffing generated ranges over slices/arrays/strings/maps/struct fields with every header form.",
+    "Go iterates maps in random order: maps in range position have at most one entry in the generated data; range over a non-ASCII string iterates bytes (modelled).")
+PROPS["C05"] = render_prop(
+    "Theorems: Tag.SortedAttr is a permutation, sorted by the documented key (with < conditionals < range < remove < rest) and stable, with the weights taken from html/tag.go on every run; the owner of if/else/range stops after its directive (model); tied to the code by diffing every directive subset in random written order, plus the direct oracle that re-renders with permuted control attributes.",
+    "'each effect exactly once' is checked through the call log of recording functions in the correspondence stream.")
+PROPS["C06"] = render_prop(
+    "Theorems: Combine falls through only on Absent (not on present-nil, not on failure), a chain of scopes resolves to the first non-absent entry, the render scope is data then global (built-ins last), with/range bindings shadow and resolve everything else outside, siblings are rendered in the list's scope (bindings never flow to a sibling or back to the parent); tied to the code by diffing nested with/range shadowing of data/global/built-in names.",
+    "reflect-level lookup (getValue) is modelled, validated by the eval stream.",
+    extra_streams=[dict(name="eval", family="eval", quick=2000, thorough=100000, nontrivial=r".")])
+PROPS["C07"] = render_prop(
+    "Theorems: define is never rendered in place, insert appends the fragment's output inside the host tag and replace writes it instead of the host, both discard the host's children and evaluate the fragment in the call-site scope on a fresh object, unknown names are template-not-found, only a first/last blank text child is trimmed, and the name table does not depend on load order (for permuted file lists); tied to the code by diffing 1-3 files in random load order with fragments before/after use, nested, computed names.",
+    "")
+PROPS["C16"] = render_prop(
+    "Theorem: for loader-built trees, executing a template from two arbitrary well-formed condition tables gives the same output, result and call log, hence the i-th execution of any history on one template object equals a fresh execution (history_pure); tied to the code by histories of 1-3 valuations (including failing renders and failing writers) on one object, plus the direct oracle comparing every run with a fresh object.",
+    "")
 
 NOT_YET = {}
